@@ -13,4 +13,5 @@ INVARIANT Consequences
 INVARIANT ClosureHolds
 INVARIANT CfgOk
 INVARIANT Emit
+INVARIANT ActsSeen
 CHECK_DEADLOCK FALSE
